@@ -180,24 +180,24 @@ class IndexedSet(MutableSet):
         return apparent_index
 
     def _add_dead(self, start, stop=None):
-        # TODO: does not handle when the new interval subsumes
-        # multiple existing intervals
+        # dead_indices is kept sorted, with overlapping and adjacent
+        # intervals merged, so the dead slots at the end of item_list
+        # are always covered by exactly one (the last) interval
         dints = self.dead_indices
         if stop is None:
             stop = start + 1
-        cand_int = [start, stop]
-        if not dints:
-            dints.append(cand_int)
-            return
-        int_idx = bisect_left(dints, cand_int)
-        dint = dints[int_idx - 1]
-        d_start, d_stop = dint
-        if start <= d_start <= stop:
-            dint[0] = start
-        elif start <= d_stop <= stop:
-            dint[1] = stop
-        else:
-            dints.insert(int_idx, cand_int)
+        int_idx = bisect_left(dints, [start, stop])
+        if int_idx > 0 and dints[int_idx - 1][1] >= start:
+            # grow the interval on the left instead
+            int_idx -= 1
+            start = dints[int_idx][0]
+            stop = max(stop, dints[int_idx][1])
+            del dints[int_idx]
+        while int_idx < len(dints) and dints[int_idx][0] <= stop:
+            # absorb the intervals reached on the right
+            stop = max(stop, dints[int_idx][1])
+            del dints[int_idx]
+        dints.insert(int_idx, [start, stop])
         return
 
     # common operations (shared by set and list)
